@@ -3,6 +3,7 @@ package world
 import (
 	"crypto/sha256"
 	"fmt"
+	"os"
 	"runtime"
 	"sort"
 	"sync"
@@ -132,11 +133,24 @@ func BFS(sys *System) *BFSResult {
 	}
 	frontier := []int{0}
 	for depth := 0; len(frontier) > 0; depth++ {
-		if sys.MaxDepth > 0 && depth >= sys.MaxDepth {
-			res.Capped = fmt.Sprintf("depth bound %d reached with %d frontier states", sys.MaxDepth, len(frontier))
+		maxDepth := sys.MaxDepth
+		if maxDepth == 0 {
+			// every system here is closed by budgets and converges within a few dozen levels; a
+			// search that is still finding new states this deep is chasing a counter that grows
+			// without bound (two controllers fighting over an object bump its generation forever)
+			maxDepth = defaultMaxDepth
+		}
+		if depth >= maxDepth {
+			res.Capped = fmt.Sprintf("depth bound %d reached with %d frontier states", maxDepth, len(frontier))
 			break
 		}
 		res.Depth = depth + 1
+		if os.Getenv("VERIF_BFS_DEBUG") != "" {
+			if d := os.Getenv("VERIF_BFS_DUMP"); d != "" && len(frontier) == 1 && nodes[frontier[0]].w != nil {
+				_ = os.WriteFile(fmt.Sprintf("%s/canon-%03d.txt", d, depth), []byte(nodes[frontier[0]].w.Canon()), 0o644)
+			}
+			fmt.Fprintf(os.Stderr, "bfs %s: depth=%d frontier=%d states=%d violations=%d\n", sys.Name, depth, len(frontier), len(nodes), res.NViolations)
+		}
 		// expand the frontier in parallel
 		out := make([][]expansion, len(frontier))
 		var wg sync.WaitGroup
@@ -227,6 +241,8 @@ func BFS(sys *System) *BFSResult {
 	res.States = int64(len(nodes))
 	return res
 }
+
+const defaultMaxDepth = 300
 
 func evClass(name string) string {
 	for i, c := range name {
